@@ -299,6 +299,7 @@ type Contract struct {
 	Safety    []string // classes of automatic obligations claimed: nil idx slice div wrap conv assert map
 	SafetyProps []string
 	Opts      map[string]string
+	Lemmas     []*Clause // proved (then assumed) at every return before the postconditions; may name locals
 	ExtraProps []string // properties this function carries obligations for without a clause of its own
 	AllLoopInv []*Clause  // invariants added to every loop (schemas)
 	Protect    []string   // heaps that must not change on pre-existing objects (schemas)
@@ -511,6 +512,12 @@ func ParseSpecLines(sf *SpecFile, file string, lines []string, trusted bool) err
 				return errf("clause %q outside a func block", kw)
 			}
 			switch kw {
+			case "lemma":
+				e, err := ParseSpecExpr(rest)
+				if err != nil {
+					return errf("%v", err)
+				}
+				cur.Lemmas = append(cur.Lemmas, &Clause{Kind: "lemma", Props: tags, Src: rest, Expr: e, Line: l.at})
 			case "requires", "ensures", "assume":
 				name := ""
 				if strings.HasPrefix(rest, "@") {
